@@ -99,6 +99,12 @@ def compile_batch(work, tag, cfg, mode, obs, extra_flags=()):
         out = path[:-4] + ".ll"
         rc, so, se, cmd = tc.clang_ll(path, out, mode, extra_flags)
         if rc == 0:
+            if mode == "eqcut":
+                pats = sorted({p for ob in sub for p in ob.meta.get("cut", [])})
+                raw, out = out, out[:-3] + ".opt.ll"
+                done = tc.cut_functions(raw, out, pats)
+                for ob in sub:
+                    ob.meta["cut_done"] = [d for d in done if any(re.search(p, d) for p in ob.meta.get("cut", []))]
             with open(out) as f:
                 mod = ir.parse_module(f.read())
             return mod, active, rejected, out, cmd
